@@ -20,7 +20,7 @@ func hashBytes(b []byte) string { h := sha1.Sum(b); return hex.EncodeToString(h[
 
 func c19List(seed uint64, c int) *astisub.Subtitles {
 	r := newRng(seed*1000003 + uint64(c))
-	return richSubs(r, richOpts{safe: true, maxStyles: 6, maxItems: 5})
+	return richSubs(r, richOpts{safe: true, maxStyles: 6, maxItems: 5, caseIDs: c%3 == 1, unordered: c%2 == 1})
 }
 
 // writes list c to every format once; returns format -> hash (or "ERR"/"PANIC")
@@ -63,7 +63,7 @@ func fixClock() {
 }
 
 func suiteDeterminism(R *runner, r *rng) {
-	R.rule("determinism: cue lists with 0..6 styles and 0..4 regions having heterogeneous attribute subsets (SSA attribute sets differing between styles, WebVTT style blocks spread over several styles), metadata present; each list written to each of the 5 formats 50 times in this process, once in each of 4 fresh processes, and in 6 different writer orders; a deep snapshot of the list before/after every write; the STL clock (astisub.Now) is fixed, and moved when the metadata supplies both dates; oracle: all outputs of a format byte-identical, list unchanged; non-trivial = at least 2 styles")
+	R.rule("determinism: cue lists (every second one not in start order) with 0..6 styles (every third list with identifiers differing only by case) and 0..4 regions having heterogeneous attribute subsets (SSA attribute sets differing between styles, WebVTT style blocks spread over several styles), metadata present; each list written to each of the 5 formats 50 times in this process, once in each of 4 fresh processes, and in 6 different writer orders; a deep snapshot of the list before/after every write; the STL clock (astisub.Now) is fixed, and moved when the metadata supplies both dates; oracle: all outputs of a format byte-identical, list unchanged; non-trivial = at least 2 styles")
 	fixClock()
 	N := 40
 	if R.tier == "thorough" {
